@@ -1,0 +1,11 @@
+//go:build verif
+
+package policy
+
+// VerifParseMailbox exposes parseRFC2821Mailbox to the verification harness
+// (/verif), which needs the parsed domain to compute the IDNA input field of
+// its model. Not compiled without the "verif" build tag.
+func VerifParseMailbox(in string) (local, domain string, ok bool) {
+	mb, ok := parseRFC2821Mailbox(in)
+	return mb.local, mb.domain, ok
+}
